@@ -86,6 +86,14 @@ def isList : PyVal → Bool
 def isNumber : PyVal → Bool
   | .bool _ | .int _ | .flt _ | .inf _ | .nan => true
   | _ => false
+/-- `isinstance(v, float)` -/
+def isFloat : PyVal → Bool
+  | .flt _ | .inf _ | .nan => true
+  | _ => false
+/-- `isinstance(v, (str, UUID))` -/
+def isStrOrUuid : PyVal → Bool
+  | .str _ | .uuid _ => true
+  | _ => false
 def isUuid : PyVal → Bool
   | .uuid _ => true
   | _ => false
@@ -157,13 +165,18 @@ def bitAnd (a b : PyVal) : PyM PyVal :=
   | .int x, .bool y => .ok (.int (if y then x % 2 else 0))
   | _, _ => .error .typeError
 
+/-- `str(uuid.UUID(hex=u))`: the 8-4-4-4-12 presentation of 32 digits -/
+def hyphenate (u : String) : String :=
+  let l := u.toList
+  String.ofList (l.take 8 ++ '-' :: (l.drop 8).take 4 ++ '-' :: (l.drop 12).take 4 ++ '-' :: (l.drop 16).take 4 ++ '-' :: l.drop 20)
+
 /-- `str(v)` for the cases the mappers use -/
 def pyStr : PyVal → String
   | .inf false => "inf"
   | .inf true => "-inf"
   | .nan => "nan"
   | .str s => s
-  | .uuid u => u
+  | .uuid u => hyphenate u
   | .none => "None"
   | .bool true => "True"
   | .bool false => "False"
@@ -184,18 +197,71 @@ def floatOfStr (v : PyVal) : PyM PyVal :=
 
 def hexDigit (c : Char) : Bool := c.isDigit || ('a' ≤ c && c ≤ 'f') || ('A' ≤ c && c ≤ 'F')
 
-/-- `uuid.UUID(str(v))`: strip `urn:`, `uuid:`, braces and hyphens, then exactly 32 hex digits -/
+/-- `l.replace(pat, "")` on character lists (left to right, non-overlapping); the fuel is the length of the input -/
+def removeAllAux (pat : List Char) : Nat → List Char → List Char
+  | 0, l => l
+  | _ + 1, [] => []
+  | n + 1, c :: cs =>
+    if pat.isPrefixOf (c :: cs) then removeAllAux pat n (cs.drop (pat.length - 1)) else c :: removeAllAux pat n cs
+def removeAll (pat : List Char) (l : List Char) : List Char := removeAllAux pat l.length l
+
+def isBrace (c : Char) : Bool := c == '{' || c == '}'
+/-- `s.strip("{}")` -/
+def stripBraces (l : List Char) : List Char := ((l.dropWhile isBrace).reverse.dropWhile isBrace).reverse
+
+/-- the hexadecimal text `uuid.UUID(s)` ends up with: `urn:` and `uuid:` removed, braces stripped at both ends,
+    hyphens removed -/
+def uuidHex (l : List Char) : List Char :=
+  (stripBraces (removeAll "uuid:".toList (removeAll "urn:".toList l))).filter (· != '-')
+
+/-- `uuid.UUID(str(v))`: exactly 32 hexadecimal digits must remain (Python's `int(hex, 16)` additionally tolerates
+    surrounding whitespace, a sign, a `0x` prefix and single underscores; strings of that form are outside the model
+    and are not generated) -/
+def uuidParseStr (s : String) : Option String :=
+  let h := uuidHex s.toList
+  if h.length == 32 && h.all hexDigit then some (String.ofList (h.map Char.toLower)) else Option.none
+
 def uuidParse (v : PyVal) : Option String :=
   match v with
   | .uuid u => some u
-  | .str s =>
-    let s1 := (s.replace "urn:" "").replace "uuid:" ""
-    let s2 := s1.toList.filter (fun c => c != '{' && c != '}' && c != '-')
-    if s2.length == 32 && s2.all hexDigit then some (String.ofList (s2.map Char.toLower)) else Option.none
-  | .int i => if 0 ≤ i && (toString i).length == 32 then some (toString i) else Option.none   -- 32 decimal digits parse as hex
+  | .str s => uuidParseStr s
+  | .int i => uuidParseStr (toString i)          -- `str(i)`: 32 decimal digits (a minus sign is a hyphen) parse as hex
   | _ => Option.none
 
-/-- `"{" + str(u) + "}"` keeps the canonical digits (hyphenation is presentation only) -/
+/-- split a character list at every `sep` -/
+def splitAt (sep : Char) : List Char → List (List Char)
+  | [] => [[]]
+  | c :: cs =>
+    match splitAt sep cs with
+    | [] => [[c]]                                  -- unreachable: the result is never empty
+    | w :: rest => if c == sep then [] :: w :: rest else (c :: w) :: rest
+
+/-- `Path(s).suffix == ".geoh5"`: the last non-trivial path component ends in `.geoh5` and is longer than that -/
+def geoh5Path (s : String) : Bool :=
+  match ((splitAt '/' s.toList).filter (fun c => c != [] && c != ['.'])).getLast? with
+  | some name => name.length > 6 && ".geoh5".toList.isSuffixOf name
+  | Option.none => false
+
+/-- `ui_json.utils.path2workspace` (hand model): a string whose suffix is `.geoh5` is opened as a workspace -/
+def path2workspace (v : PyVal) : PyM PyVal :=
+  match v with
+  | .str s => if geoh5Path s then .ok (.ws s) else .ok v
+  | _ => .ok v
+
+/-- `ui_json.utils.workspace2path` (hand model): a workspace becomes the path of its file -/
+def workspace2path (v : PyVal) : PyM PyVal :=
+  match v with
+  | .ws p => .ok (.str p)
+  | _ => .ok v
+
+/-- `ui_json.utils.container_group2name` (hand model): in `demote` it runs after `entity2uuid`, so it never sees an
+    entity; on an entity it would return the group's name, which the model renders as a marked string -/
+def container_group2name (v : PyVal) : PyM PyVal :=
+  match v with
+  | .ent u => .ok (.str ("<name of " ++ u ++ ">"))
+  | _ => .ok v
+
+/-- `"{" + str(u) + "}"` -/
 def braced (u : String) : PyVal := .str ("{" ++ u ++ "}")
 
 /-! ### monadic combinators used by the translator (every Python sub-expression is a `PyM` term, so
@@ -225,6 +291,14 @@ def isNone : PyVal → Bool
 def isNan : PyVal → Bool
   | .nan => true
   | _ => false
+/-- `hasattr(v, "uid")`: entities and property groups carry an identifier -/
+def hasUid : PyVal → Bool
+  | .ent _ => true
+  | _ => false
+/-- `v.uid` -/
+def getUid : PyVal → PyM PyVal
+  | .ent u => .ok (.uuid u)
+  | _ => .error .attributeError
 /-- a Python value used where a condition is expected -/
 def asBool (v : PyM PyVal) : PyM Bool := v >>= fun x => pure (truthy x)
 def ofBool (b : PyM Bool) : PyM PyVal := b >>= fun x => pure (PyVal.bool x)
